@@ -224,7 +224,7 @@ func instantiate(w *World, assume []*Term, goal *Term) ([]*Term, *Term) {
 			cnt := 0
 			for _, c1 := range cl {
 				for _, c2 := range cl {
-					if cnt > 200 {
+					if cnt > 80 {
 						break
 					}
 					out = append(out, subst(a.Args[0], map[string]*Term{a.Vars[0].Op: c1, a.Vars[1].Op: c2}))
